@@ -2,7 +2,7 @@
 # tools/seedtest.sh <property> <patch.diff> : apply a seeded patch to /repo, run the quick check, revert
 P=$1; D=$2
 cd /repo && git apply "$D" || exit 9
-cd /verif && ./check $P > /tmp/seedtest.out 2>&1; rc=$?
+cd /verif && PVC_EVIDENCE_DIR=/verif/.work/seed-evidence ./check $P > /tmp/seedtest.out 2>&1; rc=$?
 grep -E "^VIOLATION|^UNDECIDED|^CHECKER|^$P:|replayed on" /tmp/seedtest.out | cut -c1-260
 echo "exit=$rc"
 cd /repo && git checkout -- . && git status --short | grep -v workflow.py
